@@ -56,6 +56,10 @@ type Step struct {
 	// in a goroutine while Reject is called from the handler).  The second
 	// answer is refused by the responder and must not have any effect.
 	Double string `json:"double,omitempty"`
+	// Invalid: the update function breaks the balance sum (it mints one unit), so
+	// the proposer's own machine refuses the proposal and nothing is sent; the
+	// channel must be as ready for further updates as before
+	Invalid bool `json:"invalid,omitempty"`
 }
 
 // Case is a program of update proposals on 1-3 channels of one client pair.
@@ -110,6 +114,7 @@ func drawCase(t *rapid.T) Case {
 			DelayMs: []int{0, 0, 1, 5, 20}[rapid.IntRange(0, 4).Draw(t, "delay")],
 			With:    rapid.IntRange(0, 2).Draw(t, "with") == 0,
 			CtxEnds: rapid.IntRange(0, 4).Draw(t, "ctxends") == 0,
+			Invalid: rapid.IntRange(0, 13).Draw(t, "invalid") == 0,
 			Double:  rapid.SampledFrom([]string{"", "", "", "", "", "", "", "", "rej-acc", "rej-rej", "acc-acc", "acc|rej", "acc-held|rej"}).Draw(t, "double"),
 		}
 		// two thirds of the overlapping groups avoid a head-on collision (both
@@ -522,7 +527,9 @@ func runCase(c Case) *h.Outcome {
 		defer cancel()
 		err := ch.Update(ctx, func(st *channel.State) {
 			amt := new(big.Int).SetUint64(s.Amount)
-			if st.Balances[0][from].Cmp(amt) >= 0 {
+			if s.Invalid {
+				st.Balances[0][from] = new(big.Int).Add(st.Balances[0][from], big.NewInt(1))
+			} else if st.Balances[0][from].Cmp(amt) >= 0 {
 				sim.Transfer(0, from, amt, s.Final)(st)
 			} else if s.Final {
 				st.IsFinal = true
@@ -764,6 +771,10 @@ func runCase(c Case) *h.Outcome {
 		// final and nothing has timed out means the party was not ready for a
 		// further update
 		for _, r := range res {
+			if c.Steps[r.step].Invalid {
+				o.Class("invalid-proposal:" + r.kind)
+				continue
+			}
 			if r.kind == "local" && !sawTimeout && len(g) == 1 && r.err != nil {
 				st := chans[c.Steps[r.step].Chan][c.Steps[r.step].By].State()
 				if !st.IsFinal {
